@@ -185,6 +185,18 @@ func gen(seed int64, n int, tier string) []interface{} {
 		}
 		c.LongLine = r.Intn(12) == 0
 		c.Prelude = len(c.Runs) > 0 && r.Intn(2) == 0
+		if len(c.Runs) > 0 && r.Intn(3) == 0 {
+			// one of the processed files is not part of the identifier set (files beyond a fixed identifier set)
+			var sel []int
+			for i, f := range c.Files {
+				if selected(f) {
+					sel = append(sel, i+1)
+				}
+			}
+			if len(sel) >= 2 {
+				c.Outsider = sel[r.Intn(len(sel))]
+			}
+		}
 		out = append(out, c)
 	}
 	return out
